@@ -66,6 +66,9 @@ def run(ctx: Ctx, rep: Report) -> None:
 
     batchord(ctx, rep, circ)
     seqord(ctx, rep)
+    from . import circuit_extra
+    circuit_extra.append_spec(ctx, rep)
+    circuit_extra.insert_spec(ctx, rep)
 
 
 # ---------------------------------------------------------------------------
